@@ -71,7 +71,7 @@ def groupop_cases(draw):
     rec = draw(cs.recipes(max_mobile=4, max_other=3))
     d = len(rec["lattice"])
     return {"type": "GroupOp", "recipe": rec, "bases": [draw(vs.opspecs(d)), draw(vs.opspecs(d))],
-            "items": draw(_items(d + d * d, 4)), "ne": True}
+            "items": draw(_items(d + d * d, 4, extra=st.fixed_dictionaries({"mid": st.sampled_from([None, None, None, 7.0e-9])}))), "ne": True}
 
 
 @st.composite
@@ -183,6 +183,8 @@ def laws(name, objs, fields, ne, labels, unasserted=None):
                 require(ha == hb, lambda: "%s: items %d (%s) and %d (%s) compare equal but hash differently (%d vs %d)" % (name, a, labels[a], b, labels[b], ha, hb))
     for a in range(n):
         for b in range(n):
+            if unasserted is not None and getattr(unasserted, "skip_verdict", False) and unasserted(a, b):
+                continue   # pair deliberately placed inside the tolerance band of ==: only the hash law is asserted for it
             want = verdict(fields[a], fields[b])
             if unasserted is not None and not want and unasserted(a, b):
                 continue
@@ -258,7 +260,12 @@ def build_groupops(case):
                         t[0], t[1] = t[1], t[0]
                         break
                 im = tuple(tuple(t) for t in lis)
-        if it.get("near") or far:
+        if it.get("mid"):
+            # a translation from another source: inside the band in which GroupOp.__eq__ (numpy.allclose) calls two translations
+            # equal.  One level only, so that approximate equality stays transitive within the pool; whether such a pair is equal is
+            # not asserted, only that equal operations hash equally (GroupOp's hash leaves the translation out for this reason).
+            trans[0] += it["mid"]
+        if it.get("near") or far or it.get("mid"):
             g = GroupOp(rot, trans, cartrot, im)
         objs.append(g)
         fields.append([('i', np.array(g.rot)), ('f', g.trans), ('f', g.cartrot), ('o', tuple(tuple(int(x) for x in t) for t in g.indexmap))])
@@ -500,6 +507,11 @@ def check_arith(case):
     eq(z2, PS.zero(j, d), "(-a)+a vs zero(j)")
     eq(PS.zero(i, d) + a, a, "zero(i)+a vs a")
     eq(a + PS.zero(j, d), a, "a+zero(j) vs a")
+    # the universal zero (site index -1) is accepted at either end by __add__ (special-cased in the library) and is an identity there
+    zu = PS.zero(-1, d)
+    eq(zu + a, a, "zero(-1)+a vs a")
+    eq(a + zu, a, "a+zero(-1) vs a")
+    eq((a + zu) + (-a), PS.zero(i, d), "(a+zero(-1))+(-a) vs zero(i)")
     # addition (i,j)R + (j,k)R' = (i,k)R+R'
     b = mk(j, k, Rb)
     same(a + b, (i, k, Ra + Rb), "(i,j)R+(j,k)R'")
@@ -580,6 +592,14 @@ def check(case):
                 hit.append((a, b))
                 return True
             return False
+    if typ == "GroupOp":
+        mids = [bool(it.get("mid")) for it in case["items"]]
+        if any(mids):
+            classes.append("GroupOp_translation_inside_allclose_band")
+
+        def unasserted(a, b):
+            return mids[a] != mids[b]
+        unasserted.skip_verdict = True
     neq, nne = laws(NAMES[typ], objs, fields, case.get("ne", True), labels, unasserted)
     if typ == "Cluster" and hit:
         classes.append("Cluster_C31_ts_region_unasserted")
